@@ -19,7 +19,7 @@ sed -i "s#target-dir = \"/verif/target\"#target-dir = \"$S/target\"#" $S/engine/
 [ -x $S/target/debug/nunmc ] || { echo "build failed"; exit 2; }
 for p in "$@"; do
   echo "=== $p $tier with seed $(basename $(dirname $patch))"
-  ( cd $S/engine && NUNMC_EVIDENCE_DIR=$S/evidence $S/target/debug/nunmc "$p" "$tier" 2>&1 | grep -E "VIOLATION|held|VIOLATED|machinery|unlisted clause" | cut -c1-260 | awk '/^VIOLATION/{n++; if(n<=2)print; next} {print} END{print "  (" n+0 " VIOLATION lines)"}' | tail -12 )
+  ( cd $S/engine && NUNMC_EVIDENCE_DIR=$S/evidence $S/target/debug/nunmc "$p" "$tier" 2>&1 | grep -aE "VIOLATION|held|VIOLATED|machinery|unlisted clause" | cut -c1-260 | awk '/^VIOLATION/{n++; if(n<=2)print; next} {print} END{print "  (" n+0 " VIOLATION lines)"}' | tail -12 )
 done
 git -C /repo worktree remove --force $S/repo
 rm -rf $S/engine
